@@ -1,4 +1,5 @@
 import ModbusProofs.Lemmas.ClientLoop
+import ModbusProofs.Lemmas.Safe
 /-
   C08 — A request call always terminates with a classified error on transport faults.
 
@@ -14,7 +15,11 @@ import ModbusProofs.Lemmas.ClientLoop
         context cancel   → the context's error                          (`cancelled`)
         oversize         → ErrPacketTooLong  [or the flush error]       (`oversize`)
     * a rejected write → ClientError(write) [or the flush error]       (`write_rejected`)
-    * success needs at least the announced number of bytes or a closed stream (`no_success_below_expected`).
+    * success needs at least the announced number of bytes or a closed stream (`no_success_below_expected`);
+    * the whole call (`doExchange`: write, read loop, reply parser) returns, for EVERY script, write outcome,
+      flusher and hook setting, either a response or one of the classified errors - the model's `panic`
+      outcome of the reply parsers (an index past the frame) is unreachable (`call_never_panics_and_is_classified`,
+      composing the loop's classification with the parsers' safety theorems of C10).
   What the model cannot exhibit: real time. "Returns within a bounded time" is the total read timer of the
   Go code; the harness measures it (a 10 s watchdog per call turns a call that does not come back into the
   outcome HANG). Calls on an unconnected client or with a nil request return before the loop; they are
@@ -101,6 +106,50 @@ theorem no_success_below_expected (k : ClientKind) (fl : Flusher) (expected : Na
     (log : List HookEv) (h : readLoop k fl expected script [] [] = (.frame bs, log)) :
     bs.length ≥ expected ∨ (k ≠ .serial ∧ ∃ b, Ev.eof b ∈ script) :=
   readLoop_frame_len k fl expected script [] [] bs log h
+
+/-- the error classes a call may return -/
+def Classified (e : CErr) : Prop :=
+  e = .timeout ∨ e = .io ∨ e = .write ∨ e = .flush ∨ e = .tooLong ∨ e = .ctx ∨ e = .noBytes ∨
+  (∃ x, e = .exc x) ∨ ∃ x, e = .parse x
+
+/-- the whole call - write, read loop, reply parser - for every transport script, write outcome, flusher and hook
+setting: a response or a classified error; the parsers' `panic` outcome is unreachable, and so are the two errors
+that are decided before the exchange starts (`notConnected`, `nilReq`) -/
+theorem call_never_panics_and_is_classified (k : ClientKind) (fl : Flusher) (hooks : Bool) (req : Bytes)
+    (expected : Nat) (writeFails : Bool) (script : List Ev) :
+    (∃ r tid, (doExchange k fl hooks req expected writeFails script).1 = .ok r tid) ∨
+    ∃ e, (doExchange k fl hooks req expected writeFails script).1 = .err e ∧ Classified e := by
+  unfold doExchange
+  by_cases hw : writeFails = true
+  · right
+    simp only [hw, if_true]
+    unfold withFlush
+    split_ifs <;> simp [Classified]
+  · simp only [hw]
+    rcases hrl : readLoop k fl expected script [] [] with ⟨out, log⟩
+    cases out with
+    | err e =>
+      right
+      refine ⟨e, by simp, ?_⟩
+      rcases readLoop_err_class k fl expected script [] [] e log hrl with h | h | h | h | h | h | h <;>
+        simp [Classified, h]
+    | frame bs =>
+      have ht := (safe_parseTCPResponse bs []).2
+      have hr := (safe_parseRTUResponseWithCRC bs []).2
+      cases hk : k.framing <;> simp only [Bool.false_eq_true, if_false]
+      · rcases hp : parseTCPResponse ⟨bs, []⟩ with ⟨tid, r⟩ | e | _
+        · left; exact ⟨r, some tid, by simp⟩
+        · right; exact ⟨.parse e, by simp, by simp [Classified]⟩
+        · exact absurd hp ht
+      · rcases hp : parseRTUResponseWithCRC ⟨bs, []⟩ with r | e | _
+        · left; exact ⟨r, none, by simp⟩
+        · right; exact ⟨.parse e, by simp, by simp [Classified]⟩
+        · exact absurd hp hr
+
+/-- both sides of the disjunction occur: a complete FC3 reply is a response, a stalled transport a timeout -/
+example : (doExchange .tcp .none false [] 11 false [.data [0, 1, 0, 0, 0, 5, 1, 3, 2, 0xAB, 0xCD]]).1 =
+    .ok (.regs 3 1 2 [0xAB, 0xCD]) (some 1) := by decide +kernel
+example : (doExchange .tcp .none false [] 11 false []).1 = .err .timeout := by decide +kernel
 
 /-- KF-C08-fc17-prefix: a stall after the first 12 bytes of a 15-byte FC17 reply is reported as success -/
 theorem kf_fc17_witness :
